@@ -18,12 +18,12 @@ import (
 // as an ordinary word and stay pure data.
 const SelfWord = "selfprog"
 
-var signedKinds = map[Kind]bool{KInt: true, KInt8: true, KInt16: true, KInt32: true, KInt64: true}
+var signedKinds = map[Kind]bool{KInt: true, KInt8: true, KInt16: true, KInt32: true, KInt64: true, KLvl: true}
 
 var (
 	AllArgKinds = []Kind{KString, KStringPtr, KStringSlice, KInt, KInt8, KInt16, KInt32, KInt64, KUint, KUint8, KUint16,
 		KUint32, KUint64, KIntSlice, KIntPtr, KUint8Slice, KFloat32, KFloat64, KFloatSlice, KDuration, KDurSlice, KDurPtr, KMapSS, KMapSI, KMapIS, KMapFS,
-		KUpper, KUpperSlice, KTri, KValid}
+		KUpper, KUpperSlice, KTri, KValid, KLvl}
 	FlagKinds = []Kind{KBool, KBoolSlice, KBoolPtr}
 	FuncKinds = []Kind{KFunc0, KFuncS, KFuncI, KFunc0E, KFuncSE, KFuncSS}
 	AllKinds  = append(append(append([]Kind{}, AllArgKinds...), FlagKinds...), FuncKinds...)
